@@ -25,3 +25,9 @@ def generators(tier, seed):
                 dict(module="MC_C01", cfg="MC_C01_q2", workers=4, limit=12000)]
     return [dict(module="MC_C01", cfg="MC_C01_q1", workers=8),
             dict(module="MC_C01", cfg="MC_C01_q2", workers=8)]
+
+MANIFEST = dict(
+    design_ref='DESIGN.md §5 C01',
+    text='TLC enumerates every forest / root list / depth window within the bound (MC_C01); each scenario is replayed in bfs and dfs mode against the real binary and every recorded behaviour is validated by the TLA+ trace judge Judge_C01 (exact set, no duplicate, bfs level-monotone, dfs subtree-contiguous, all from World.tla). The walker mechanism (Walker.tla, one action per loop iteration of visit_dir) is model-checked against the same Prop definitions for every readdir order, with termination.',
+    note="Trusted: TLC, World.tla, the driver's materialisation, lstat inode numbers as row identity. Bounded: forests of <= 4 nodes over {dir,file,symlink,fifo} and <= 5 nodes over {dir,file}; windows 0..depth+2; quick samples 24 000 of the 153 000 scenarios, thorough runs all.",
+    technique='TLC scenario enumeration + replay into the binary + TLA+ trace judge; TLC model checking of the Walker mechanism')
